@@ -56,6 +56,9 @@ class ParallelGradient:
         # Save the inverse as it is used multiple times
         self._inv_dz = 1.0/self._dz
 
+        # Save the global index of the first local radius
+        self._rStart = layout.starts[layout.inv_dims_order[0]]
+
         r = eta_grid[0][layout.starts[layout.inv_dims_order[0]]:
                         layout.ends[layout.inv_dims_order[0]]]
 
@@ -125,7 +128,7 @@ class ParallelGradient:
         """
         # Get scalar values necessary for this slice
         bz = self._bz[i]
-        thetaVals = self._thetaVals[i]
+        thetaVals = self._thetaVals[self._rStart+i]
         assert der.shape == phi_r.shape
         der[:] = 0
 
